@@ -456,13 +456,101 @@ fn m_gfb(t: &mut Tape, rng: &mut SimRng, out: &mut RunOut, nops: usize) {
     }
 }
 
+
+/// Helper integers Zu128 / Zu256 / Zu384 (64-bit or 32-bit limbs, feature zz32). Their limb layout is
+/// backend-specific, so only the layout-independent accessors are logged: abs() / double_inc_abs() (u128 +
+/// sign word), add_rsh224() and borrow() (u32).
+fn m_zu(t: &mut Tape, rng: &mut SimRng, out: &mut RunOut, nops: usize) {
+    use crrl::{Zu128, Zu256, Zu384};
+    let mut r128: Vec<Zu128> = vec![Zu128::ZERO, Zu128::w64le(1, 0), Zu128::w64le(u64::MAX, u64::MAX)];
+    let mut r256: Vec<Zu256> = vec![Zu256::ZERO, Zu256::w64le(u64::MAX, u64::MAX, u64::MAX, u64::MAX)];
+    for _ in 0..3 + t.usize(3) {
+        r128.push(Zu128::w64le(word(t, rng), word(t, rng)));
+        r256.push(Zu256::w64le(word(t, rng), word(t, rng), word(t, rng), word(t, rng)));
+        let l = if t.chance(3, 4) { 16 } else { len_biased(t, 16) };
+        let b = bytes_biased(t, rng, l);
+        if let Some(x) = Zu128::decode(&b) {
+            r128.push(x);
+        }
+        let l = if t.chance(3, 4) { 32 } else { len_biased(t, 32) };
+        let b = bytes_biased(t, rng, l);
+        out.ev(format_args!("Zu256 decode({}B) -> {}", b.len(), Zu256::decode(&b).is_some()));
+        if let Some(x) = Zu256::decode(&b) {
+            r256.push(x);
+        }
+    }
+    let show128 = |out: &mut RunOut, what: &str, x: Zu128| {
+        let (a, s) = x.abs();
+        let (d, s2) = x.double_inc_abs();
+        out.status(ENG, "Zu128.abs", s);
+        out.status(ENG, "Zu128.double_inc_abs", s2);
+        out.ev(format_args!("Zu {} -> abs {:#x} sign {:#x} dia {:#x}", what, a, s, d));
+    };
+    for _ in 0..nops {
+        let a = r128[t.usize(r128.len())];
+        let b = r128[t.usize(r128.len())];
+        let p = r256[t.usize(r256.len())];
+        let q = r256[t.usize(r256.len())];
+        match t.usize(7) {
+            0 => {
+                let m = a.mul128x128(&b);
+                out.ev(format_args!("Zu mul128x128 -> top32 {:#x} borrow_vs_q {}", m.add_rsh224(&Zu256::ZERO), m.borrow(&q)));
+                show128(out, "mul128x128.trunc128", m.trunc128());
+                r256.push(m);
+            }
+            1 => {
+                let m = a.mul128x128trunc(&b);
+                show128(out, "mul128x128trunc", m);
+                r128.push(m);
+            }
+            2 => {
+                let mut x = a;
+                x.set_sub(&b);
+                show128(out, "set_sub", x);
+                r128.push(x);
+            }
+            3 => {
+                let mut x = a;
+                x.set_sub_u32(word(t, rng) as u32);
+                show128(out, "set_sub_u32", x);
+                r128.push(x);
+            }
+            4 => {
+                out.ev(format_args!("Zu256 add_rsh224 {:#x} borrow {}", p.add_rsh224(&q), p.borrow(&q)));
+                show128(out, "trunc128", p.trunc128());
+            }
+            _ => {
+                let mut z: Zu384 = p.mul256x128(&a);
+                if t.chance(1, 2) {
+                    let z2 = q.mul256x128(&b);
+                    z.set_add(&z2);
+                }
+                let n = 225 + t.usize(31) as u32;
+                let cc = t.usize(2) as u32;
+                let (lo, hi) = z.trunc_and_rsh_cc(cc, n);
+                out.ev(format_args!("Zu384 trunc_and_rsh_cc(cc={}, n={}) lo.top32 {:#x} lo.borrow_vs_q {}", cc, n, lo.add_rsh224(&Zu256::ZERO), lo.borrow(&q)));
+                show128(out, "rsh.lo.trunc128", lo.trunc128());
+                show128(out, "rsh.hi", hi);
+                r256.push(lo);
+                r128.push(hi);
+            }
+        }
+        if r128.len() > 24 {
+            r128.remove(3);
+        }
+        if r256.len() > 16 {
+            r256.remove(2);
+        }
+    }
+}
+
 pub fn run(t: &mut Tape, tier: Tier, out: &mut RunOut) {
     let mut rng = SimRng::new(t.seed64());
     let nm = 1 + t.usize(3);
     let nops = 8 + t.usize(if tier == Tier::Thorough { 60 } else { 30 });
     out.summary = format!("api trace: {} machines x {} operations", nm, nops);
     for _ in 0..nm {
-        let which = t.usize(23);
+        let which = t.usize(24);
         out.sched("machine", which as u32, nops as u32);
         out.stats.inc("call.apitrace.machine");
         let res = crate::core::guard_raw(|| match which {
@@ -488,7 +576,8 @@ pub fn run(t: &mut Tape, tier: Tier, out: &mut RunOut) {
             19 => p_jq255s(t, &mut rng, out, nops / 2),
             20 => p_gls254(t, &mut rng, out, nops / 2),
             21 => p_ristretto255(t, &mut rng, out, nops / 2),
-            _ => p_decaf448(t, &mut rng, out, nops / 3),
+            22 => p_decaf448(t, &mut rng, out, nops / 3),
+            _ => m_zu(t, &mut rng, out, nops),
         });
         if let Err(m) = res {
             out.ev(format_args!("PANIC in machine {}", which));
